@@ -474,3 +474,43 @@ def emitted_keys(f: Func) -> Set[str]:
 def emits(keys: Iterable[str]) -> Callable[[Func], bool]:
     ks = set(keys)
     return lambda f: bool(emitted_keys(f) & ks)
+
+
+# ------------------------------------------------------------------------------------------------------------------ L6
+def check_ensure_before_get(model: RepoModel, rep, RID: str, rels: Iterable[str]) -> int:
+    """L6: a memoised builder `F(x)` that stores its result with `<store>.save_K(x, ...)` and, for the things `x` depends on, first
+    calls itself (`F(y)`) and then reads their result back with `<store>.get_K(y)` must make the recursive call BEFORE the read: read
+    first and the dependency's result is whatever an earlier, unrelated visit left there -- usually nothing."""
+    n = 0
+    for rel in rels:
+        mod = model.module(rel)
+        for f in mod.all_funcs():
+            saves = {c.func.attr[5:] for c in walk_no_nested(f.node) if isinstance(c, ast.Call) and isinstance(c.func, ast.Attribute) and c.func.attr.startswith("save_")}
+            if not saves:
+                continue
+            selfcalls = [c for c in walk_no_nested(f.node) if isinstance(c, ast.Call) and ((isinstance(c.func, ast.Attribute) and c.func.attr == f.name
+                         and isinstance(c.func.value, ast.Name) and c.func.value.id == "self") or (isinstance(c.func, ast.Name) and c.func.id == f.name)) and c.args]
+            if not selfcalls:
+                continue
+            cfg = cfg_of(f.node)
+            call_node = {}
+            for nd in cfg.g.nodes:
+                for c in cfg.calls_at(nd):
+                    call_node[id(c)] = nd
+            for g in walk_no_nested(f.node):
+                if not (isinstance(g, ast.Call) and isinstance(g.func, ast.Attribute) and g.func.attr.startswith("get_") and g.func.attr[4:] in saves and g.args):
+                    continue
+                arg = norm(g.args[0])
+                ensure = [c for c in selfcalls if norm(c.args[0]) == arg]
+                if not ensure or id(g) not in call_node:
+                    continue
+                n += 1
+                key = f"{rel}::{f.qualname}::`{norm(g)[:80]}`::read after the recursive call that produces it"
+                if any(id(c) in call_node and call_node[id(c)] != call_node[id(g)] and cfg.dominates(call_node[id(c)], call_node[id(g)]) for c in ensure):
+                    rep.holds(RID, key, rel, g.lineno, f"dominated by `{norm(ensure[0])[:70]}`")
+                else:
+                    rep.violation(RID, key, rel, g.lineno,
+                                  f"{f.qualname} reads `{norm(g)[:80]}` before `{norm(ensure[0])[:70]}` has run: the result for `{arg}` is only saved by "
+                                  f"that call, so on the first visit the read returns nothing and what `{arg}` contributes is missing from what is "
+                                  f"saved here")
+    return n
